@@ -447,3 +447,128 @@ func c10Route(p Params) func() {
 		vsched.Logf("%s names=%d", ctxt, len(names))
 	}
 }
+
+func init() { Sched["c10_rewrite"] = c10Rewrite }
+
+// aliasPlugin rewrites the service method of incoming CALL and PUSH headers (as plugin/ignorecase and routing
+// plugins do with ReadCtx.ResetServiceMethod); dispatch must follow the rewritten name.
+type aliasPlugin struct {
+	alias map[string]string
+	lower bool
+}
+
+func (a *aliasPlugin) Name() string { return "alias" }
+func (a *aliasPlugin) rewrite(ctx erpc.ReadCtx) *erpc.Status {
+	m := ctx.ServiceMethod()
+	if a.lower {
+		m = strings.ToLower(m)
+	}
+	if to, ok := a.alias[m]; ok {
+		m = to
+	}
+	if m != ctx.ServiceMethod() {
+		ctx.ResetServiceMethod(m)
+	}
+	return nil
+}
+func (a *aliasPlugin) PostReadCallHeader(ctx erpc.ReadCtx) *erpc.Status { return a.rewrite(ctx) }
+func (a *aliasPlugin) PostReadPushHeader(ctx erpc.ReadCtx) *erpc.Status { return a.rewrite(ctx) }
+
+// c10Rewrite: a header plugin rewrites the requested name; the handler that runs is the one registered under the
+// rewritten name, it sees that name, and a name that rewrites to nothing registered is unknown.
+func c10Rewrite(p Params) func() {
+	return func() {
+		begin()
+		lower := vsched.Choose(2, "ignorecase") == 1
+		unknown := vsched.Choose(2, "unknown") == 1
+		pl := &aliasPlugin{alias: map[string]string{}, lower: lower}
+		srv := world.NewPeer("json", pl)
+		type ran struct{ reg, saw string }
+		var runs []ran
+		// the names are whatever the router derives for these functions; the alias table points at them
+		var n1, n2, np string
+		n1 = srv.SubRoute("/a").RouteCallFunc(func(ctx erpc.CallCtx, a *string) (*string, *erpc.Status) {
+			runs = append(runs, ran{n1, ctx.ServiceMethod()})
+			r := n1
+			return &r, nil
+		})
+		n2 = srv.SubRoute("/b").RouteCallFunc(func(ctx erpc.CallCtx, a *int) (*string, *erpc.Status) {
+			runs = append(runs, ran{n2, ctx.ServiceMethod()})
+			r := n2
+			return &r, nil
+		})
+		np = srv.SubRoute("/p").RoutePushFunc(func(ctx erpc.PushCtx, a *string) *erpc.Status {
+			runs = append(runs, ran{np, ctx.ServiceMethod()})
+			return nil
+		})
+		if n1 != strings.ToLower(n1) || n2 != strings.ToLower(n2) || np != strings.ToLower(np) || n1 == n2 {
+			vsched.Failf("harness: unexpected route names %q %q %q", n1, n2, np)
+		}
+		pl.alias["/old/one"], pl.alias["/old/two"], pl.alias["/old/note"], pl.alias["/old/gone"] = n1, n2, np, "/a/gone"
+		if unknown {
+			srv.SetUnknownCall(func(ctx erpc.UnknownCallCtx) (interface{}, *erpc.Status) {
+				runs = append(runs, ran{"<unknown call>", ctx.ServiceMethod()})
+				return "u", nil
+			})
+			srv.SetUnknownPush(func(ctx erpc.UnknownPushCtx) *erpc.Status {
+				runs = append(runs, ran{"<unknown push>", ctx.ServiceMethod()})
+				return nil
+			})
+		}
+		cli := world.NewPeer("json")
+		cs, _, _ := world.Connect(cli, srv, nil)
+		wires := []string{n1, n2, np, "/old/one", "/old/two", "/old/note", "/old/gone", strings.ToUpper(n1), "/OLD/TWO", "/Old/Note", "/nope"}
+		wire := wires[vsched.Choose(len(wires), "wire")]
+		push := vsched.Choose(2, "kind") == 1
+		// reference: the name after the plugin
+		want := wire
+		if lower {
+			want = strings.ToLower(want)
+		}
+		if to, ok := pl.alias[want]; ok {
+			want = to
+		}
+		registered := map[bool]map[string]bool{false: {n1: true, n2: true}, true: {np: true}}
+		ctxt := fmt.Sprintf("wire=%s push=%v ignorecase=%v unknown=%v rewritten=%s", wire, push, lower, unknown, want)
+		var st *erpc.Status
+		var res string
+		if push {
+			st = cs.Push(wire, "x")
+		} else {
+			arg := interface{}("x")
+			if want == n2 {
+				arg = 7
+			}
+			st = cs.Call(wire, arg, &res).Status()
+		}
+		vsched.Quiesce()
+		switch {
+		case registered[push][want]:
+			if len(runs) != 1 || runs[0].reg != want {
+				vsched.Failf("request rewritten to %s ran %v, want exactly the handler registered under that name | %s", want, runs, ctxt)
+			}
+			if runs[0].saw != want {
+				vsched.Failf("handler registered as %s ran with ServiceMethod()=%s | %s", want, runs[0].saw, ctxt)
+			}
+			if !push && (!st.OK() || res != want) {
+				vsched.Failf("call rewritten to %s returned %s %q | %s", want, world.StatStr(st), res, ctxt)
+			}
+		case unknown:
+			wantU := "<unknown call>"
+			if push {
+				wantU = "<unknown push>"
+			}
+			if len(runs) != 1 || runs[0].reg != wantU {
+				vsched.Failf("request for an unregistered name ran %v, want only the %s handler | %s", runs, wantU, ctxt)
+			}
+		default:
+			if len(runs) != 0 {
+				vsched.Failf("request for an unregistered name ran %v | %s", runs, ctxt)
+			}
+			if !push && st.Code() != erpc.CodeNotFound {
+				vsched.Failf("call to an unregistered name returned %s, want 404 | %s", world.StatStr(st), ctxt)
+			}
+		}
+		vsched.Logf("%s", ctxt)
+	}
+}
